@@ -43,6 +43,17 @@ func corrShift(o corrOpts) *res.Summary {
 	genModule(dir, r, n, func(i int) gen.Options {
 		return gen.Options{Ignores: true, NearMiss: i%4 == 0, Spelling: []int{0, 1}[i%2]}
 	})
+	// @implements scenarios too (import declarations in source order, not in path order)
+	for i := 0; i < 4; i++ {
+		m := gen.GenerateImpl(r.U64()%1000000007, fmt.Sprintf("i%d", i))
+		for name, content := range m.Files {
+			if name == "go.mod" {
+				continue
+			}
+			os.MkdirAll(filepath.Dir(filepath.Join(dir, name)), 0o755)
+			os.WriteFile(filepath.Join(dir, name), []byte(content), 0o644)
+		}
+	}
 
 	keysOf := func(pkgs []*packages.Package, prog string) (map[string][]string, []string, error) {
 		var roots []*packages.Package
@@ -90,6 +101,16 @@ func corrShift(o corrOpts) *res.Summary {
 		sum.Notes = append(sum.Notes, "analysis failed: "+err.Error())
 		return sum
 	}
+	// the analysis reads what it is given: the import list of the type-checked package and the syntax trees are shared
+	// by all analyzers of a package, which run concurrently
+	for _, p := range basePkgs {
+		if pr := baseOut[p.ID]; pr != nil && pr.Mutated != "" {
+			sum.Evaluations++
+			sum.Disagree(res.Disagreement{Kind: "impl-vs-spec", Input: fmt.Sprintf("shift seed=%d package=%s (whole module, parallel analysis)", o.seed, p.ID), Impl: pr.Mutated, Model: "inputs unchanged",
+				Clause: "C11: concurrent analysis of packages has no data races — an analyzer changed an input that its sibling analyzers read at the same time"})
+		}
+	}
+	sum.AddN("packages-checked-for-modified-inputs", len(basePkgs))
 	baseKeys := map[string][]string{}
 	var scopes []scope
 	for _, p := range basePkgs {
